@@ -171,6 +171,23 @@ class Qual:
             if par.kind == "closure" and depth < 8:
                 # captured by the enclosing closure in turn
                 return self.check_prov(par, p, [], None, depth + 1, seen, sent)
+        m = re.match(r"^param:arg1\.(\w+)\.(\w+)$", p)
+        if m and f.kind == "closure" and f.parent in self.ctx.fx.fns:
+            # a field of a captured struct value that the enclosing function built (`Window { id, offset }`)
+            par = self.ctx.fx.fns[f.parent]
+            names = {nm: l for l, nm in par.debug_names().items()}
+            l = names.get(m.group(1))
+            adt = self.ctx.fx.adts.get(par.locals[l].get("adt")) if l is not None else None
+            if adt is not None and not adt["is_enum"] and adt["variants"]:
+                idx = [i for i, fld in enumerate(adt["variants"][0]["fields"]) if fld["name"] == m.group(2)]
+                pp = Prov(par).local(l)
+                short = adt["path"].split("::")[-1]
+                head = "%s::%s(" % (short, short)
+                if idx and pp.startswith(head) and pp.endswith(")"):
+                    from prov import _split_top
+                    parts = _split_top(pp[len(head):-1])
+                    if idx[0] < len(parts):
+                        return self.check_prov(par, parts[idx[0]], [], None, depth + 1, seen, sent)
         m = re.match(r"^var:(\w+)$", p)
         if m:
             names = {nm: l for l, nm in f.debug_names().items()}
